@@ -153,6 +153,7 @@ class DataPath:
         if not isinstance(spec, dict):
             raise MalformedDataPathSpec(general_msg)
         else:
+            spec = dict(spec)  # keys may be re-written below; leave the caller's mapping alone
             spec_key, spec_val = next(iter(spec.items()))  # single-item dict
 
         REPLACE = "path"
@@ -516,6 +517,7 @@ class ContainerValue:
             "list_value": ListValue,
             "map_or_list_value": MapOrListValue,
         }
+        spec = dict(spec)  # consumed with `pop` below; leave the caller's mapping alone
         container_type = spec.pop("type", "map_or_list_value")
         try:
             cls = CLS_LOOKUP[container_type]
